@@ -118,10 +118,18 @@ Inc(x) == CASE x.t = "i" -> I(x.n + 1)
 Wrap(x) == L(<<x, x>>)
 Pair(x) == T(<<x, x>>)
 
-MapFns == {"inc", "wrap", "pair"}
+MapFns == {"inc", "wrap", "pair", "incinc", "incwrap", "bmap_inc"}
+\* batch_map(inc): inc applied to every member of a batch (a non-batch is
+\* not in its domain: the twin raises TypeError; never generated)
+BMapInc(x) == CASE x.t = "L" -> L([j \in 1..Len(x.xs) |-> Inc(x.xs[j])])
+                [] x.t = "T" -> L([j \in 1..Len(x.tp) |-> Inc(x.tp[j])])
+                [] OTHER     -> x
 ApplyFn(f, x) == CASE f = "inc"  -> Inc(x)
                    [] f = "wrap" -> Wrap(x)
                    [] f = "pair" -> Pair(x)
+                   [] f = "incinc"  -> Inc(Inc(x))         \* inc after inc
+                   [] f = "incwrap" -> Wrap(Inc(x))        \* wrap after inc
+                   [] f = "bmap_inc" -> BMapInc(x)
                    [] OTHER      -> x
 
 \* predicates: records [pn |-> name] or [pn |-> "insz", sz |-> <<sizes>>]
